@@ -1019,6 +1019,82 @@ func (h *Hist) step() {
 			ref = r.pick([]string{b, "heads/" + b, "refs/heads/" + b + "/", "refs/tags/" + b, "refs/heads/x/" + b, "/refs/heads/" + b, "refs/heads//" + b, "REFS/HEADS/" + b})
 		}
 		h.X(tz, "update-ref", ref, id)
+	case "twin-dirs":
+		// two (or three) directories with identical contents — identical tree objects — in one snapshot, at the same or at
+		// different depths; committed, then read back every way a snapshot is read (reset, status, cat-file, switch)
+		a, b := h.comp(), h.comp()
+		if a != b {
+			if r.chance(1, 2) {
+				b = h.comp() + "/" + b
+			}
+			n1, n2 := h.comp(), h.comp()
+			d1, d2 := h.content(), h.content()
+			for _, d := range []string{a, b} {
+				h.W("write", d+"/"+n1, d1)
+				if n2 != n1 {
+					h.W("write", d+"/sub/"+n2, d2)
+				}
+			}
+			h.X(tz, "add", ".")
+			h.X(tz, "commit", "-m", "twin directories")
+			h.X(tz, "status")
+			h.X(tz, "cat-file", "-p", "HEAD")
+			h.W("write", a+"/"+n1, h.content())
+			h.X(tz, "add", a)
+			if h.cfg.PreReset {
+				h.inProbe = true
+				sampleReflog(h)
+				h.inProbe = false
+			}
+			h.X(tz, "reset", r.pick([]string{"--mixed", "--hard"}), "HEAD@{0}")
+			h.X(tz, "ls-files")
+			h.X(tz, "status")
+		}
+	case "restore-family-probe":
+		// a directory argument together with siblings whose names merely start with the directory's name (d-old, d.txt, d2/x):
+		// every named path is restored, none is skipped because an earlier argument looks like its prefix
+		d := h.comp()
+		fam := []string{d + "/" + h.comp(), d + "-old", d + ".txt", d + "2/" + h.comp(), d + "_x"}
+		var use []string
+		for _, f := range fam {
+			if r.chance(2, 3) {
+				use = append(use, f)
+			}
+		}
+		if len(use) >= 2 {
+			for _, f := range use {
+				h.W("write", f, h.content())
+			}
+			h.X(tz, append([]string{"add"}, use...)...)
+			if r.chance(1, 2) {
+				h.X(tz, "commit", "-m", "a family of names")
+			}
+			for _, f := range use {
+				if r.chance(2, 3) {
+					h.W("write", f, h.content())
+				} else {
+					h.W("rm", f, nil)
+				}
+			}
+			args := []string{d}
+			for _, f := range use[1:] {
+				if i := strings.Index(f, "/"); i > 0 && r.chance(1, 2) {
+					args = append(args, f[:i])
+				} else {
+					args = append(args, f)
+				}
+			}
+			if r.chance(1, 3) {
+				args[0], args[len(args)-1] = args[len(args)-1], args[0]
+			}
+			if r.chance(1, 4) {
+				h.X(tz, append([]string{"add"}, args...)...)
+				h.X(tz, append([]string{"restore", "--staged"}, args...)...)
+			} else {
+				h.X(tz, append([]string{"restore"}, args...)...)
+			}
+			h.X(tz, "status")
+		}
 	case "twins":
 		// several tracked files with identical bytes in one directory (and below it), then all of them
 		// modified or deleted and the directory restored / re-added / removed: nothing may be keyed by content
@@ -1331,7 +1407,13 @@ func runHistCase(ctx *Ctx, cfg *HistCfg, r *rng, idx int) (Case, []string, []Fin
 	h.obs = observe(h.dir, h.home)
 	h.X(0, "init")
 	if r.intn(100) >= cfg.NoIdent {
-		h.X(0, "config", "user.name", "Test User")
+		// identities with the characters the record formats use as separators (": " ends the action word of a reflog
+		// record, "<" opens the e-mail of a signature is excluded by the property's domain, two spaces, an apostrophe)
+		name := "Test User"
+		if r.chance(1, 6) {
+			name = r.pick([]string{"Team: Core", "a: b: c", "Dr. X:  Y", "O'Brien", "commit: x", "x"})
+		}
+		h.X(0, "config", "user.name", name)
 		h.X(0, "config", "user.email", "test@example.com")
 	}
 	if cfg.Setup != nil {
